@@ -219,12 +219,18 @@ Definition store (M : memory) (c : nat) (p : list nat) (v : value) : result memo
   | _, None => Fail "not modelled: partial write to an uninitialised variable"
   end.
 
-Definition index_nat (v : value) : result nat :=
+(* the index as a number; the comparison with the object's length is made in Z, so that a hostile
+   index (2^31, 2^32-1) is rejected without ever being built as a unary nat *)
+Definition index_z (v : value) : result Z :=
   match v with
-  | VI32 z => if z <? H32 then Done (Z.to_nat z) else Fail "UB: out of bounds (negative index)"
-  | VU32 z => Done (Z.to_nat z)
+  | VI32 z => if z <? H32 then Done z else Fail "UB: out of bounds (negative index)"
+  | VU32 z => Done z
   | _ => Fail "index: not an integer"
   end.
+
+Definition index_in (v : value) (z : Z) : result nat :=
+  l <~ elems v ;;
+  if (0 <=? z) && (z <? Z.of_nat (List.length l)) then Done (Z.to_nat z) else Fail "UB: out of bounds".
 
 (* ---- constructors T(args) / T {args}; an argument None is a bare {} ---- *)
 Definition flatten_scalars (comps : list value) : list value :=
@@ -462,7 +468,7 @@ Fixpoint peval_gen (E : env) (M : memory) (e : expr) {struct e} : result value :
   | EZero => Fail "not modelled: {} in this position"
   | EDC => Fail "not modelled: DefaultConstructible() in this position"
   | EMember a m => v <~ peval_gen E M a ;; member_value E a m v
-  | EIndex a i => v <~ peval_gen E M a ;; iv <~ peval_gen E M i ;; n <~ index_nat iv ;; index_value v n
+  | EIndex a i => v <~ peval_gen E M a ;; iv <~ peval_gen E M i ;; z <~ index_z iv ;; n <~ index_in v z ;; index_value v n
   | ECall fn args =>
     vs <~ (fix go (l : list expr) : result (list value) :=
              match l with
@@ -573,7 +579,7 @@ Fixpoint eval (fuel : nat) (E : env) (M : memory) (e : expr) {struct fuel} : res
     | EDC => Fail "not modelled: DefaultConstructible() in this position"
     | EMember a m => v <~ eval f E M a ;; member_value E a m v
     | EIndex a i =>
-      v <~ eval f E M a ;; iv <~ eval f E M i ;; n <~ index_nat iv ;; index_value v n
+      v <~ eval f E M a ;; iv <~ eval f E M i ;; z <~ index_z iv ;; n <~ index_in v z ;; index_value v n
     | ECall fn args =>
       if is_atomic_fn fn then Fail "not modelled: atomic inside an expression"
       else if is_intrinsic fn then vs <~ rmap (eval f E M) args ;; intrinsic fn vs
@@ -624,9 +630,11 @@ with lval (fuel : nat) (E : env) (M : memory) (e : expr) {struct fuel} : result 
       | None => Fail "not modelled: lvalue of unknown static type"
       end
     | EIndex a i =>
-      loc <~ lval f E M a ;; iv <~ eval f E M i ;; n <~ index_nat iv ;;
-      cur <~ load M (fst loc) (snd loc) ;; l <~ elems cur ;;
-      if Nat.ltb n (List.length l) then Done (fst loc, (snd loc ++ [n])%list) else Fail "UB: out of bounds"
+      loc <~ lval f E M a ;; iv <~ eval f E M i ;; z <~ index_z iv ;;
+      cur <~ load M (fst loc) (snd loc) ;; n <~ index_in cur z ;;
+      Done (fst loc, (snd loc ++ [n])%list)
+    | ECond c a b =>        (* C++: a conditional expression whose branches are lvalues is an lvalue (naga: `ok ? x.inner[i] : oob`) *)
+      cv <~ eval f E M c ;; t <~ to_bool cv ;; lval f E M (if t then a else b)
     | _ => Fail "not modelled: expression is not an lvalue"
     end
   end
@@ -874,7 +882,9 @@ Fixpoint to_msl (fuel : nat) (t : ty) (v : value) : result value :=
     end
   end.
 
-Fixpoint from_msl (fuel : nat) (t : ty) (v : value) : result value :=
+(* back to the IR shape; [shape] is a value of the IR shape of this buffer (its initial contents): an MSL struct
+   with one array member is unwrapped exactly where the IR has an array *)
+Fixpoint from_msl (fuel : nat) (t : ty) (v : value) (shape : value) : result value :=
   match fuel with
   | O => OutOfFuel
   | S f =>
@@ -883,23 +893,29 @@ Fixpoint from_msl (fuel : nat) (t : ty) (v : value) : result value :=
       match find_struct sn with
       | None => Fail ("not modelled: type " ++ sn)
       | Some sd =>
-        match sd_members sd, vs with
-        | [(_, mt)], [x] =>
-          match resolve_ty mt with
-          | TyA _ _ => from_msl f mt x                (* unwrap .inner *)
-          | _ => y <~ from_msl f mt x ;; Done (VStruct [y])
+        match shape with
+        | VArr _ =>
+          match real_members sd, vs with
+          | [(_, mt)], [x] => from_msl f mt x shape                (* unwrap .inner *)
+          | _, _ => Fail "MSL struct where the IR has an array, but not an array wrapper"
           end
-        | _, _ =>
-          let fix go (ms : list (string * ty)) (xs : list value) : result (list value) :=
-            match ms, xs with
-            | [], [] => Done []
-            | (_, mt) :: ms', x :: xs' => y <~ from_msl f mt x ;; ys <~ go ms' xs' ;; Done (y :: ys)
-            | _, _ => Fail "struct value does not match its type"
+        | VStruct shs =>
+          let fix go (ms : list (string * ty)) (xs shs : list value) : result (list value) :=
+            match ms, xs, shs with
+            | [], [], [] => Done []
+            | (_, mt) :: ms', x :: xs', sh :: shs' => y <~ from_msl f mt x sh ;; ys <~ go ms' xs' shs' ;; Done (y :: ys)
+            | _, _, _ => Fail "struct value does not match its type"
             end in
-          ys <~ go (real_members sd) vs ;; Done (VStruct ys)
+          ys <~ go (real_members sd) vs shs ;; Done (VStruct ys)
+        | _ => Fail "struct value where the IR has a scalar"
         end
       end
-    | TyA et _, VArr xs => ys <~ rmap (from_msl f et) xs ;; Done (VArr ys)
+    | TyA et _, VArr xs =>
+      match shape with
+      | VArr (sh :: _) => ys <~ rmap (fun x => from_msl f et x sh) xs ;; Done (VArr ys)
+      | VArr [] => Done v
+      | _ => Fail "array value where the IR has none"
+      end
     | _, _ => Done v
     end
   end.
